@@ -38,6 +38,15 @@ Agrees(st, r, a) ==
          /\ (st.k \in {"ins", "del", "ct", "dt"} => r.cnt = a.cnt)
          /\ (st.k \in {"sel", "rd"} => r.rows = a.rows)
 
+\* The same with the deviation "DoubleDeleteCount" (finding F21): two DELETEs whose scans overlap both count a
+\* row that only one of them removes, so an acknowledged DELETE may report up to the number of rows it named.
+AgreesDD(st, r, a) ==
+    IF ~r.ok THEN TRUE
+    ELSE /\ a.ok
+         /\ (st.k \in {"ins", "ct", "dt"} => r.cnt = a.cnt)
+         /\ (st.k = "del" => r.cnt >= a.cnt /\ r.cnt <= Cardinality(st.rows))
+         /\ (st.k \in {"sel", "rd"} => r.rows = a.rows)
+
 \* N: table names, S: sessions, P: session -> statements, R: session -> outcomes (a prefix of P),
 \* db: abstract database so far, pos: session -> number of statements already placed
 RECURSIVE ExplainsG(_, _, _, _, _, _, _)
@@ -50,5 +59,16 @@ ExplainsG(N, S, P, R, db, pos, final) ==
                a  == AbsExec(db, st)
            IN  /\ Agrees(st, r, a)
                /\ ExplainsG(N, S, P, R, IF r.ok THEN a.db ELSE db, [pos EXCEPT ![s] = @ + 1], final)
+
+RECURSIVE ExplainsDD(_, _, _, _, _, _, _)
+ExplainsDD(N, S, P, R, db, pos, final) ==
+    IF \A s \in S : pos[s] = Len(R[s])
+    THEN \A n \in N : db[n].k = final[n].k /\ db[n].rows = final[n].rows
+    ELSE \E s \in {x \in S : pos[x] < Len(R[x])} :
+           LET st == P[s][pos[s] + 1]
+               r  == R[s][pos[s] + 1]
+               a  == AbsExec(db, st)
+           IN  /\ AgreesDD(st, r, a)
+               /\ ExplainsDD(N, S, P, R, IF r.ok THEN a.db ELSE db, [pos EXCEPT ![s] = @ + 1], final)
 
 ==============================================================================
